@@ -157,13 +157,17 @@ def writers(R):
             ok = val is True and afterClosed
             why = 'closed=%s not placed after the Closed event' % U(v)
         elif val is False:
-            later = [m for m in g.live_nodes() if any(m.ast is s2 for (f2, c2, s2, v2) in allst
+            # closed is set *first*: cleared the other way round there is a moment with both flags unset, in which a send
+            # on another thread passes both tests of write() and is written after the completed handshake
+            first = [m for m in g.live_nodes() if any(m.ast is s2 and fold(R, v2, c2) is True for (f2, c2, s2, v2) in allst
                                                       if f2 == 'closed' and c2.func.qual == q)]
-            tog = bool(later) and all_paths_pass(g, normal_succs(n), later, [g.exit], skip_edge=nx) and \
-                not any(m.kind == 'yield' for m in g.reachable(normal_succs(n), avoid=set(later), skip_edge=nx))
+            tog = bool(first) and all_paths_pass(g, [ys['Closed']], first, [n], skip_edge=nx) and \
+                not any(m.kind == 'yield' for f_ in first for m in g.reachable(normal_succs(f_), avoid={n}, skip_edge=nx)
+                        if n in g.reachable([m], skip_edge=nx))
             ok = afterClosed and tog
-            why = 'closing=False before the Closed event (or not followed at once by closed=True): while the ' \
-                  'application handles Closed neither flag is set and sends / a second Close are written'
+            why = 'closing=False before the Closed event, or not preceded (after Closed, with no yield between) by closed=True: ' \
+                  'there is a moment at which neither flag is set - a send on another thread (or the application handling ' \
+                  'Closed) is written after the completed closing handshake'
         else:
             ok = afterEcho
             why = 'closing=True in _on_close not placed after the echo'
@@ -173,6 +177,24 @@ def writers(R):
     vals = {(flag, fold(R, v, c)) for (flag, c, s, v) in allst if c.func.qual == q}
     R.ob('C08.writers', 'on_disconnect leaves (closing=False, closed=True)', vals == {('closing', False), ('closed', True)},
          'on_disconnect stores %s' % sorted(vals), func=q, node=None, construct='on_disconnect flags %s' % sorted(vals))
+    # ... closed before closing here too (while session.close() is still closing the descriptor on this thread the socket
+    # object is visible to senders), and write() reads the two flags in the opposite order of the stores: is_closing first
+    gd0 = R.cfg(q)
+    sc_ = [m for m in gd0.live_nodes() if any(m.ast is s2 and fold(R, v2, c2) is True for (f2, c2, s2, v2) in allst if f2 == 'closed' and c2.func.qual == q)]
+    so_ = [m for m in gd0.live_nodes() if any(m.ast is s2 and fold(R, v2, c2) is False for (f2, c2, s2, v2) in allst if f2 == 'closing' and c2.func.qual == q)]
+    R.ob('C08.writers', 'on_disconnect sets closed before it clears closing', bool(sc_) and bool(so_) and all(
+        all_paths_pass(gd0, [gd0.entry], sc_, [o_], skip_edge=nx) for o_ in so_),
+        'on_disconnect() clears State.closing before State.closed is set: between the two stores neither flag is set and a send '
+        'from another thread is not refused', func=q, node=(so_[0].ast if so_ else None), construct='on_disconnect: closing cleared first')
+    gw = R.cfg(S + '.write')
+    tc_ = [t for t in gw.live_nodes() if t.kind == 'test' and U(t.ast) in ('self.websocket.is_closing', 'self.websocket.state.closing')]
+    td_ = [t for t in gw.live_nodes() if t.kind == 'test' and U(t.ast) in ('self.websocket.is_closed', 'self.websocket.state.closed')]
+    R.ob('C08.writers', 'write() tests is_closing before is_closed', bool(tc_) and bool(td_) and all(
+        all_paths_pass(gw, [gw.entry], tc_, [d_], skip_edge=nx) for d_ in td_),
+        'write() reads is_closed before is_closing while the handshake code sets closed and then clears closing: a sender that '
+        'reads closed (still false), is overtaken by both stores and then reads closing (already false) passes both tests - '
+        'its frame is written after the completed closing handshake', func=S + '.write', node=(td_[0].ast if td_ else None),
+        construct='write(): flag tests in store order')
     # ... and only once the transport is gone: the flags flip after session.close() (between `closing = False` and
     # `closed = True` no send is refused by the state - harmless only while the socket is already closed)
     gd = R.cfg(q)
@@ -305,6 +327,9 @@ def refuse(R, RID='C08.refuse'):
         for rn in [m for m in gg.live_nodes() if m.kind == 'stmt' and isinstance(m.ast, ast.Raise) and m.ast.exc is not None]:
             if any(fr.kind == 'handler' for fr in rn.frames):
                 continue                    # a transport failure being converted
+            toks_ = R.exc.exc_tokens_of_value(rn.ast.exc, gg.ctx)
+            if toks_ and not any('errors.WebSocketError' in R.exc.supers(t_) for t_ in toks_):
+                continue                    # an argument error (TypeError / ValueError): not swallowed by _send_close
             bad = []
             for l in path_conditions(R, gg, rdg, gg.entry, rn):
                 if not any((a, True) in l for a in allowed) and ('self._sock is not None', False) not in l and ('self._sock', False) not in l:
